@@ -48,6 +48,8 @@ type Conversation struct {
 
 	fragmentSize         uint16
 	fragmentationContext fragmentationContext
+	// set while an encoded message is processed that turns out to belong to another instance
+	ignoredForOtherInstance bool
 
 	smpEventHandler      SMPEventHandler
 	errorMessageHandler  ErrorMessageHandler
